@@ -254,6 +254,12 @@ def sample_stacks(depth, n=24, seed=0):
     import random
     rnd = random.Random(seed)
     out = [[w] * depth for w in (0, 1, 2 ** 256 - 1, 2 ** 255, 0x20)]
+    # aliasing shapes: all words distinct except two positions that coincide (two keys / offsets that are the same location)
+    for i in range(min(depth, 6)):
+        for j in range(i + 1, min(depth, 6)):
+            st = [0x40 + 0x23 * k for k in range(depth)]
+            st[j] = st[i]
+            out.append(st)
     for _ in range(n):
         out.append([rnd.choice(SAMPLE_WORDS) if rnd.random() < 0.75 else rnd.randrange(M) for _ in range(depth)])
     return out
